@@ -264,8 +264,10 @@ def check_node(p, node, col, feats):
             except Exception:
                 pass
         try:
-            Src = dataclasses.make_dataclass("OtherSource", [(n, typing.Any) for n in wire])
-            shapes["other-structured"] = Src(**wire)
+            # (attributes with a leading underscore are not fields of an object, so such keys cannot travel this way)
+            if not any(str(n).startswith("_") for n in wire):
+                Src = dataclasses.make_dataclass("OtherSource", [(n, typing.Any) for n in wire])
+                shapes["other-structured"] = Src(**wire)
         except Exception:
             pass
         if not spec_n["flavour"].startswith("typeddict"):
